@@ -5,7 +5,7 @@ pub struct AnyErr { pub _p: u8 }
 macro_rules! __anyhow_path_macro { ($($t:tt)*) => { crate::mk_anyhow() } }
 pub mod anyhow {
     pub type Error = super::AnyErr;
-    pub type Result<T> = ::std::result::Result<T, super::AnyErr>;
+    pub type Result<T, E = super::AnyErr> = ::std::result::Result<T, E>;   // like anyhow: the error type defaults to anyhow::Error
     #[allow(unused_imports)]
     pub(crate) use __anyhow_path_macro as anyhow;
 }
